@@ -43,6 +43,12 @@ Theorems == (Theorem /\ hist # <<>>) =>
     /\ cur = Apply(Files[fileIx], Last[1], Last[2])
     /\ Apply(cur, Last[1], Last[2]) = cur
 
-Case == [orig |-> BytesOf(Files[fileIx], 1, fileIx % 2 = 0), hist |-> hist, outs |-> outs, file |-> fileIx]
-ExportCase == (Export /\ hist # <<>>) => PrintT(ToJson(Case))
+Case == [orig |-> BytesOf(Files[fileIx], 1, fileIx % 2 = 0), hist |-> hist, outs |-> outs, file |-> fileIx, crlf |-> FALSE]
+\* The same file with CR LF line ends.  The statement does not say whether the line ends survive
+\* (the code writes LF); `outs' are therefore compared modulo line ends for these cases - every marker
+\* must still show V and Y, every other character must stay.
+RECURSIVE CrLf(_)
+CrLf(s) == IF s = "" THEN "" ELSE (IF SubSeq(s, 1, 1) = "\n" THEN "\r\n" ELSE SubSeq(s, 1, 1)) \o CrLf(Tail(s))
+CaseCR == [Case EXCEPT !.orig = CrLf(BytesOf(Files[fileIx], 1, TRUE)), !.crlf = TRUE]
+ExportCase == (Export /\ hist # <<>>) => (PrintT(ToJson(Case)) /\ PrintT(ToJson(CaseCR)))
 =============================================================================
